@@ -305,7 +305,5 @@ func dumpCdrFile(ueid string, records []*cdrType.CHFRecord) error {
 		}
 	}
 
-	cdrfile.Encoding("/tmp/" + ueid + ".cdr")
-
-	return nil
+	return cdrfile.Encoding("/tmp/" + ueid + ".cdr")
 }
